@@ -9,7 +9,7 @@ pid, var = sys.argv[1], sys.argv[2]
 src = '/tmp/seed-%s/%s' % (pid, var)
 sid = '%s-%s' % (pid, var)
 def sh(cmd, **kw):
-    return subprocess.run(cmd, shell=True, stdout=subprocess.PIPE, stderr=subprocess.STDOUT, universal_newlines=True, **kw)
+    return subprocess.run(cmd, shell=True, stdout=subprocess.PIPE, stderr=subprocess.STDOUT, universal_newlines=True, errors='replace', **kw)
 wt = tempfile.mkdtemp(prefix='cs-%s-' % sid, dir='/tmp'); os.rmdir(wt)
 sh('git -C /repo worktree add -q --detach %s HEAD' % wt)
 meta = dict(id=sid, property=pid, confirmed=False, ran=[])
